@@ -79,14 +79,14 @@ type tierCfg struct {
 }
 
 var props = map[string]tierCfg{
-	"C07": {QuickRuns: 12000, QuickBudgetS: 40, ThoroughS: 600, Race: true, RaceQuickRuns: 3000, Level: "exploration"},
-	"C09": {QuickRuns: 48000, QuickBudgetS: 40, ThoroughS: 600, Level: "exploration"},
-	"C10": {QuickRuns: 25000, QuickBudgetS: 40, ThoroughS: 600, Race: true, RaceQuickRuns: 5000, Level: "exploration"},
-	"C14": {QuickRuns: 16000, QuickBudgetS: 40, ThoroughS: 600, Level: "exploration"},
-	"C15": {QuickRuns: 1600, QuickBudgetS: 40, ThoroughS: 600, Level: "fault_enumeration"},
-	"C16": {QuickRuns: 32000, QuickBudgetS: 40, ThoroughS: 600, Level: "exploration"},
-	"C19": {QuickRuns: 8000, QuickBudgetS: 40, ThoroughS: 600, Race: true, RaceQuickRuns: 1600, Level: "exploration"},
-	"C20": {QuickRuns: 26000, QuickBudgetS: 40, ThoroughS: 600, Race: true, RaceQuickRuns: 8000, Level: "exploration"},
+	"C07": {QuickRuns: 12000, QuickBudgetS: 60, ThoroughS: 600, Race: true, RaceQuickRuns: 3000, Level: "exploration"},
+	"C09": {QuickRuns: 48000, QuickBudgetS: 60, ThoroughS: 600, Level: "exploration"},
+	"C10": {QuickRuns: 25000, QuickBudgetS: 60, ThoroughS: 600, Race: true, RaceQuickRuns: 5000, Level: "exploration"},
+	"C14": {QuickRuns: 16000, QuickBudgetS: 60, ThoroughS: 600, Level: "exploration"},
+	"C15": {QuickRuns: 1600, QuickBudgetS: 60, ThoroughS: 600, Level: "fault_enumeration"},
+	"C16": {QuickRuns: 32000, QuickBudgetS: 60, ThoroughS: 600, Level: "exploration"},
+	"C19": {QuickRuns: 8000, QuickBudgetS: 60, ThoroughS: 600, Race: true, RaceQuickRuns: 1600, Level: "exploration"},
+	"C20": {QuickRuns: 26000, QuickBudgetS: 60, ThoroughS: 600, Race: true, RaceQuickRuns: 8000, Level: "exploration"},
 }
 
 type violation struct {
